@@ -307,6 +307,12 @@ func (u *UntrustedInputChecker) OnVisitNodeLeave(n ExprNode) {
 	if u.safeCalls > 0 {
 		if f, ok := n.(*FuncCallNode); ok && isSafeFuncCall(f) {
 			u.safeCalls--
+			if u.safeCalls == 0 {
+				// Leaving the outermost safe call ends the property access before it like leaving
+				// any other function call does. Otherwise .foo, [i] or .* following the call would
+				// continue the access found before the call.
+				u.end()
+			}
 		}
 		return
 	}
